@@ -1765,3 +1765,41 @@ def confusion_read_write_rule(ctx, rid):
                    mod.rel, lp.lineno)
     if n == 0:
         raise AnalysisError(f'{rid}: no confusion-map application loop found')
+
+
+def key_shapes_from_running_operations_rule(ctx, rid):
+    """Per-key facts a sampler derives from a circuit come from the operations that run, not from the top-level operations."""
+    repo = ctx.repo
+    ctx.decided.append(f'{rid} a sampler that derives per-key shapes with the one-key-per-operation protocols walks the operations sub-circuits stand for')
+    ctx.rule(rid, 'shapes from the operations that run: in cirq.work / cirq.sim, a loop that applies measurement_key_name / measurement_key_obj (one key per operation) to the operations of a '
+             'caller\'s circuit iterates an unrolled view (the loop, or the repository function it iterates, goes through mapped_circuit of sub-circuit operations) - at top level a '
+             'CircuitOperation is one operation with the qid shape of its whole body and possibly several keys, so run(repetitions=0) and ZerosSampler disagree with run(repetitions=3)',
+             floor=1, style='COH')
+    n = 0
+    for mod, ci, fn in repo.all_functions():
+        if mod.rel.endswith('_test.py') or not (mod.rel.startswith('cirq-core/cirq/work/') or mod.rel.startswith('cirq-core/cirq/sim/')):
+            continue
+        for lp in [l for l in ast.walk(fn) if isinstance(l, ast.For) and isinstance(l.target, ast.Name)]:
+            v = lp.target.id
+            uses = [c for c in ast.walk(lp) if isinstance(c, ast.Call) and call_name(c).split('.')[-1] in ('measurement_key_name', 'measurement_key_obj')
+                    and c.args and isinstance(c.args[0], ast.Name) and c.args[0].id == v]
+            if not uses or not isinstance(lp.iter, ast.Call):
+                continue
+            it = lp.iter
+            unrolled = 'mapped_circuit' in ast.unparse(lp) or 'CircuitOperation' in ast.unparse(lp)
+            if isinstance(it.func, ast.Attribute) and it.func.attr == 'all_operations':
+                pass
+            else:
+                tgt = None
+                if isinstance(it.func, ast.Name):
+                    tgt = mod.defs.get(it.func.id)
+                if isinstance(tgt, ast.FunctionDef):
+                    unrolled = unrolled or 'mapped_circuit' in ast.unparse(tgt)
+                else:
+                    continue
+            n += 1
+            ctx.ob(rid, f'{mod.name}.{(ci.name + ".") if ci else ""}{fn.name}:key-per-operation', unrolled, '' if unrolled else
+                   f'`for {v} in {ast.unparse(it)[:50]}` applies the one-key protocol to top-level operations: a sub-circuit operation is counted once, with the shape of its whole body',
+                   mod.rel, lp.lineno)
+    if n == 0:
+        raise AnalysisError(f'{rid}: no per-operation key walk found in cirq.work / cirq.sim')
